@@ -120,7 +120,12 @@ def load_findings(pid):
             line = line.strip()
             if not line or line.startswith("#"):
                 continue
-            d = json.loads(line)
+            if line.startswith("fixed:"):
+                m = re.match(r"fixed:\s+property=(\S+)\s+(\S+)\s+(.*)", line)
+                d = dict(property=m.group(1), status="fixed", commit=m.group(2), what=m.group(3),
+                         id=f"fixed-{m.group(2)}") if m else {}
+            else:
+                d = json.loads(line)
             if d.get("property") == pid:
                 out.append(d)
     return out
